@@ -497,6 +497,43 @@ func init() {
 		regLib(nm, noop)
 	}
 
+	// ---------------- k8s metav1.ObjectMeta getters: plain field reads ----------------
+	for getter, field := range map[string]string{"GetLabels": "Labels", "GetAnnotations": "Annotations", "GetName": "Name", "GetNamespace": "Namespace", "GetUID": "UID",
+		"GetDeletionTimestamp": "DeletionTimestamp", "GetFinalizers": "Finalizers", "GetResourceVersion": "ResourceVersion", "GetOwnerReferences": "OwnerReferences", "GetGeneration": "Generation"} {
+		field := field
+		regLib("(*k8s.io/apimachinery/pkg/apis/meta/v1.ObjectMeta)."+getter, func(x *FnExec, fr *frame, n *node, in ssa.Instruction, c *ssa.CallCommon, args []Val, reach, hint string) (Val, error) {
+			recv := args[0]
+			a := x.pointerAddr(recv)
+			if a == nil {
+				return x.havocVal(hint, resultType(in, c), reach), nil
+			}
+			if recv.Addr == nil {
+				x.nonNil(reach, recv, "ObjectMeta getter receiver", in.Pos())
+			}
+			stT := derefType(c.Args[0].Type())
+			stt := stT.Underlying().(*types.Struct)
+			for i := 0; i < stt.NumFields(); i++ {
+				if stt.Field(i).Name() != field {
+					continue
+				}
+				var fa Addr
+				if a.Root == rootField && a.Idx == "whole" && len(a.Path) == 0 {
+					hn, hs, ft := x.fieldHeap(stT, i)
+					fa = Addr{Root: rootField, Base: a.Base, Heap: hn, HSort: hs, RootT: ft, T: ft}
+				} else {
+					fa = *a
+					fa.Path = append(append([]PathStep{}, a.Path...), PathStep{Field: i, Struct: stT})
+					fa.T = stt.Field(i).Type()
+				}
+				t := x.q.define(hint, x.q.sortOf(fa.T), x.loadAddr(n.st, &fa))
+				x.assumeValid(reach, t, fa.T)
+				x.assumeAllocT(n.st, reach, t, fa.T, 1)
+				return Val{S: t, T: resultType(in, c)}, nil
+			}
+			return x.havocVal(hint, resultType(in, c), reach), nil
+		})
+	}
+
 	// ---------------- math ----------------
 	regLib("math.Floor", func(x *FnExec, fr *frame, n *node, in ssa.Instruction, c *ssa.CallCommon, args []Val, reach, hint string) (Val, error) {
 		return Val{S: fmt.Sprintf("(to_real (to_int %s))", args[0].S), T: resultType(in, c)}, nil
